@@ -78,17 +78,24 @@ Theorem c04_sources_and_negation : forall F guard tbl cn cs st,
   conj_selected F guard tbl cn cs st = conj_spec F tbl cn cs st.
 Proof. exact conj_accounting. Qed.
 
-(* ---- B and C. sequence progress and sharing.
-   find_ok F guard r: the expression has at least the two capture slots of the whole match and its find agrees with the
-   plain scan (find_agrees) on every buffer and offset. tbl_ok: every element of the condition refers to such an expression.
+(* ---- B and C. sequence progress, variables and sharing.
+   An element is a fixed expression of the table or uses variables captured (named groups) by earlier elements of its
+   sequence; then it has a precondition (every use replaced by "any bytes") and, per tuple of captured values, the compiled
+   substitution of QuoteMeta(value) (the compiler is not modelled: the table of substitutions is an input).
+   find_ok F guard r: at least the two capture slots of the whole match, and find agrees with the plain scan (find_agrees) on
+   every buffer and offset. pre_ok pre ex: where the precondition finds nothing the substituted expression finds nothing, and
+   moving the offset to where the precondition's find stopped loses no match of it. tbl_ok c: every expression an element of c
+   can resolve to is find_ok, every precondition/substitution pair is pre_ok.
    If that holds for all conditions evaluated together (whatever expressions they share, in whatever order the loop visits
-   them), the re-check loop leaves condition ci with exactly seq_spec matched elements: each element was searched, in its own
-   direction, in the data that follows the previous match in conversation order, and the other conditions had no influence. *)
+   them), then for every condition whose evaluation did not end in an error ("variable not defined / already seen") the
+   re-check loop leaves exactly seq_spec matched elements: each element was searched -- with the expression in which the
+   variables captured so far are substituted -- in its own direction, in the data that follows the previous match in
+   conversation order, and the other conditions had no influence. *)
 Theorem c04_sequence_and_sharing : forall F guard tbl s cs,
   (forall c, In c cs -> tbl_ok F guard tbl c) ->
   forall ci c, nth_error cs ci = Some c ->
-  exists p, nth_error (source_eval F guard tbl cs s) ci = Some p /\
-            p_n p = seq_spec F tbl s (c_elems c) 0 0 /\ p_n p <= length (c_elems c).
+  exists p, nth_error (source_eval F guard tbl cs s) ci = Some p /\ p_n p <= length (c_elems c) /\
+            (p_err p = 0 -> p_n p = seq_spec F tbl s (c_elems c) 0 0 []).
 Proof. exact source_eval_spec. Qed.
 
 (* the chunk-boundary rule as coded (backward scan over the cumulative sizes) is the rule of the specification *)
@@ -96,9 +103,10 @@ Theorem c04_chunk_boundary_rule : forall s d off, 0 < off -> off <= length (dir_
   exists o, boundary s d off = Some o /\ boundary_spec s d off 0 0 = Some o.
 Proof. exact boundary_eq. Qed.
 
-(* ---- end to end: the filter selects exactly the streams of the plain-scan specification *)
+(* ---- end to end: where the filter returns without error it selects exactly the streams of the plain-scan specification *)
 Theorem c04_filter_is_plain_scan : forall F guard tbl cn ors st,
   (forall cs c, In cs ors -> In c cs -> tbl_ok F guard tbl c) ->
+  (forall cs, In cs ors -> no_error F guard tbl cn cs st) ->
   stream_selected F guard tbl cn ors st = stream_spec F tbl cn ors st.
 Proof. exact stream_selected_spec. Qed.
 
@@ -113,22 +121,29 @@ Theorem c04_find_ok_shortcuts : forall F guard r,
 Proof. exact find_ok_shortcuts. Qed.
 
 (* ---- the whole chain. prepared r: the program is well-formed, has the two slots of the whole match, and either contains
-   an empty-width assertion (then the fixed code scans plainly) or carries the facts finalize() computes: Prog.Prefix,
-   AcceptedLength (with its memo table), ConstantSuffix, or the literal itself when the expression is a complete literal.
-   For every table of prepared expressions, every converter selection, every disjunction of conjunctions of (possibly
-   negated, possibly expression-sharing) THEN-sequences and every stream, the filter as coded selects the stream exactly
-   when the plain left-to-right scan in conversation order does. *)
+   an empty-width assertion (then the fixed code scans plainly) or carries the facts finalize()/prepare() compute: Prog.Prefix,
+   AcceptedLength (with its memo table), ConstantSuffix (with its budget), or the literal itself for a complete literal.
+   elem_prepared: for an element with variables, its precondition is pre_ok for each of its substitutions (two separately
+   compiled programs: this relation is an input; for a precondition with assertions it reduces to the inclusion, below).
+   For every table of prepared expressions, every converter selection, every disjunction of conjunctions of (possibly negated,
+   possibly expression-sharing) THEN-sequences with captures and variable uses, and every stream on which the filter returns
+   without error: it selects the stream exactly when the plain left-to-right scan in conversation order does. *)
 Theorem c04_payload_filters_agree_with_plain_matching : forall F tbl cn ors st,
   Forall prepared tbl ->
-  (forall cs c e, In cs ors -> In c cs -> In e (c_elems c) -> e_rx e < length tbl) ->
+  (forall cs c e, In cs ors -> In c cs -> In e (c_elems c) -> elem_prepared F tbl e) ->
+  (forall cs, In cs ors -> no_error F true tbl cn cs st) ->
   stream_selected F true tbl cn ors st = stream_spec F tbl cn ors st.
 Proof. exact filter_is_plain_scan_prepared. Qed.
+
+Theorem c04_pre_ok_guarded : forall F pre ex, context_sensitive pre = true ->
+  (forall buffer, plain F pre buffer = None -> plain F ex buffer = None) -> pre_ok F true pre ex.
+Proof. exact pre_ok_guarded. Qed.
 
 (* ---- non-vacuity *)
 Definition rx_ab_c : rx := mkRx          (* ab+c : prefix "ab", no suffix (a loop in front empties it), min 3 *)
   (mkProg [ mkInst IFail 0 0 [] []; mkInst IRune1 2 0 [97%N] []; mkInst IRune1 3 0 [98%N] []; mkInst IAlt 2 4 [] [];
             mkInst IRune1 5 0 [99%N] []; mkInst IMatch 0 0 [] [] ] 1)
-  2 (mkFacts [97; 98]%N [] 3%N MAXU).
+  2 (mkFacts [97; 98]%N [] 3%N MAXU) [None].
 Example c04_ex_facts : wf (r_prog rx_ab_c) = true /\ assertion_free (r_prog rx_ab_c) = true /\
   prog_prefix (r_prog rx_ab_c) = ([97; 98]%N, false) /\
   accepted_length_cached (r_prog rx_ab_c) = Some (3%N, MAXU) /\ constant_suffix_b (r_prog rx_ab_c) = Some [].
@@ -140,7 +155,7 @@ Proof. vm_compute. auto. Qed.
 Definition rx_a_c : rx := mkRx           (* a.c : prefix "a", suffix "c", length 3 *)
   (mkProg [ mkInst IFail 0 0 [] []; mkInst IRune1 2 0 [97%N] []; mkInst IRuneAnyNotNL 3 0 [0; 9; 11; 1114111]%N [];
             mkInst IRune1 4 0 [99%N] []; mkInst IMatch 0 0 [] [] ] 1)
-  2 (mkFacts [97]%N [99]%N 3%N 3%N).
+  2 (mkFacts [97]%N [99]%N 3%N 3%N) [None].
 Example c04_ex_facts2 : wf (r_prog rx_a_c) = true /\ assertion_free (r_prog rx_a_c) = true /\
   prog_prefix (r_prog rx_a_c) = ([97]%N, false) /\
   accepted_length_cached (r_prog rx_a_c) = Some (3%N, 3%N) /\ constant_suffix_b (r_prog rx_a_c) = Some [99%N].
@@ -159,7 +174,7 @@ Qed.
 Definition rx_dot_b : rx := mkRx         (* .b : no prefix, suffix "b", length 2: the fixed-length window loop *)
   (mkProg [ mkInst IFail 0 0 [] []; mkInst IRuneAnyNotNL 2 0 [0; 9; 11; 1114111]%N []; mkInst IRune1 3 0 [98%N] [];
             mkInst IMatch 0 0 [] [] ] 1)
-  2 (mkFacts [] [98]%N 2%N 2%N).
+  2 (mkFacts [] [98]%N 2%N 2%N) [None].
 Example c04_ex_window : prepared rx_dot_b /\
   find 200 true rx_dot_b [98; 10; 98; 120; 98; 98]%N 0 = (Some [Some 0; Some 2], 3) /\
   plain 200 rx_dot_b [98; 10; 98; 120; 98; 98]%N = Some [Some 3; Some 5].
